@@ -42,7 +42,8 @@ META = {
     "scalars of 9 dtypes, 11 shapes; shared sub-objects), or (context values, value) hashed with one Cache; distinct by "
     "canonical JSON of the pair and aspect; non-trivial = at least one of the two values is not a bare scalar",
     "assumptions": [
-        "the content of a function is its parameter list and body (name, annotations are not content; closure cells are C06's subject)",
+        "the content of a function is its parameter list and body (name, annotations are not content; closure cells are C06's subject); "
+        "a function without retrievable source is identified by its code object, name included",
         "attrs attributes declared eq=False are not content (documented in bytes_repr)",
         "floats are compared by bit pattern (0.0 and -0.0 are different contents); NaN does not occur inside sets or as dict key",
         "id() is unique among simultaneously live objects; every object reachable from the hashed value stays alive during the call",
